@@ -3,7 +3,6 @@ package erange
 import (
 	"fmt"
 	"go/types"
-	"math/big"
 	"strings"
 
 	"golang.org/x/tools/go/ssa"
@@ -286,5 +285,3 @@ func (a *Analyzer) summary(fr *frame, call *ssa.Call, name string, args []Value,
 	}
 	return nil, false
 }
-
-var _ = big.NewInt
